@@ -11,6 +11,7 @@ GDECL = "int g1 = 901; int g2; int ga; int gb; int gc; clock gx; chan c; broadca
 class Loc:
     def __init__(self, lid, name=None, inv=None, rate=None, kind=""):
         self.lid, self.name, self.inv, self.rate, self.kind = lid, name, inv, rate, kind
+        self.rate_first = False    # XML only: the exponentialrate label precedes the invariant label
         self.invstyle = 0     # 0: one conjunct   1: two conjuncts, the first ends in the literal 1   2: three conjuncts
 
     def sym(self):
@@ -130,7 +131,7 @@ def render_xml(m, queries=None):
     for t in m.tpls:
         locs = [X.location(l.lid, l.name, inv=t_inv(l.inv, l.invstyle)[0] if l.inv is not None else None,
                            rate=t_rate(l.rate)[0] if l.rate is not None else None,
-                           urgent=l.kind == "U", committed=l.kind == "C") for l in t.locs]
+                           urgent=l.kind == "U", committed=l.kind == "C", rate_first=l.rate_first) for l in t.locs]
         trs = []
         for e in t.edges:
             trs.append(X.transition(node_id(t, e.src), node_id(t, e.dst),
@@ -364,6 +365,8 @@ def build(choose, common=False, bp_base=True):
                 l.inv, l.rate, l.kind = inv, rate, kind
                 if inv is not None:
                     l.invstyle = choose(3, "%s.L%d.invstyle" % (t.name, li))
+                if inv is not None and rate is not None:
+                    l.rate_first = bool(choose(2, "%s.L%d.ratefirst" % (t.name, li)))
                 # an urgent/committed location may not carry a time invariant or a rate
                 if l.kind:
                     l.inv = None
